@@ -554,3 +554,30 @@ Definition tucker_normalize_core (N : nat) (sc : nat -> nat -> F) (G : list nat 
 Definition tucker_normalize_factors (sc : nat -> nat -> F) (st : blocks (@blk F)) : blocks (@blk F) :=
   fun k i a => fdiv Op (st k i a) (nonzero_scale_F Op (sc k a)).
 End TuckerNormalize.
+
+(* ---------------------------------------------------------------- error_calc with its own branch selection *)
+(* tensorly/decomposition/_cp.py:error_calc(tensor, norm_tensor, weights, factors, sparsity, mask, mttkrp):
+     if mask is not None or mttkrp is None:   full tensor; imputation under the mask; sparse component of the (imputed) residual if sparsity
+     elif sparsity:                            full tensor; sparse component of the residual
+     else:                                     the MTTKRP shortcut, the MTTKRP paired with factors[-1]
+   card = None stands for a falsy `sparsity`.  Returns (squared unnormalised error, squared norm of the tensor it is relative to). *)
+Section ErrorCalc.
+Context {F : Type} (Op : fops F).
+Definition sparse_of (X : tensor F) (L : list nat -> F) (card : option nat) (mask : option (tensor F)) : option (tensor F) :=
+  match card with
+  | None => None
+  | Some c => Some (sparsify Op c (tabulate (shape X) (fun idx => fsub Op (imputed Op (tfun Op X) mask L idx) (L idx))))
+  end.
+Definition error_calc_model (X : tensor F) (R : nat) (w : option (list F)) (fs : list (tensor F)) (card : option nat)
+           (mask M : option (tensor F)) : F * F :=
+  let L := cp_tensor_entry Op R w fs in
+  match mask, M, card with
+  | None, Some Mt, None => err_shortcut_with Op X R w fs Mt (length (shape X) - 1)
+  | _, _, _ => err_explicit Op X L (sparse_of X L card mask) mask
+  end.
+End ErrorCalc.
+
+(* ---------------------------------------------------------------- number of values a one-value-per-iteration loop records *)
+Definition s_loop_count (n : nat) (cb_stop_at : option nat) : nat :=
+  let orc := @mkS unit (fun _ st => st) (fun _ => false) (fun it => match cb_stop_at with Some j => Nat.eqb it j | None => false end) (fun st => st) in
+  length (snd (@s_loop unit unit (fun _ => tt) orc true true n 0 tt nil)).
